@@ -182,7 +182,7 @@ OBLIGATIONS = _qobs() + [
 ]
 
 from harness.corace import OB_CCI, OB_SEM, OB_SEMP, count_callback, sliding_window_preempt, sliding_window_waiters  # noqa: E402
-OBLIGATIONS += [dict(OB_SEM, id='C04.5', cases_thorough=[(1, 2), (1, 3), (2, 3), (2, 4)]), dict(OB_CCI, id='C04.6')]
+OBLIGATIONS += [dict(OB_SEM, id='C04.5', cases=[(1, 2), (1, 3), (2, 3)], cases_thorough=[(1, 2), (1, 3), (2, 3), (2, 4)]), dict(OB_CCI, id='C04.6')]
 OBLIGATIONS += [dict(OB_SEMP, id='C04.5p')]
 
 from harness.c18 import OBLIGATIONS as _C18OBS, early_shutdown  # noqa: E402
